@@ -120,6 +120,15 @@ def run(ctx):
     long_pool = ["", "a", "a" * 127, "a" * 128, "a" * 129, "a" * 255, "a" * 256, "a" * 257, "a" * 127 + "ÿ", "ÿ" + "a" * 127]
     batches.append([{"name": "m", "help": "h", "cl": [["a", v1], ["b", v2]], "vl": []} for v1 in long_pool[:6] for v2 in long_pool[:6]][:30])
     batches.append([{"name": "m" + n, "help": "h" + h, "cl": [], "vl": vl} for n in ("", "a" * 200) for h in ("", "a" * 200, "a" * 199 + "$a") for vl in ([], ["a"], ["a", "b"], ["b", "a"])])
+    # fields run together with ANY joining character: a help text (or a constant-label value) that continues with a candidate
+    # separator and the text of the next field must not alias a descriptor that has that text as a field of its own
+    for c in ["ÿ", "\u00fe", "\u0000", "\u0001", "\u001f", ",", ";", "|", " ", "=", "$", "\n", "é"]:
+        batches.append([{"name": "m", "help": "H" + c + "l", "cl": [], "vl": ["zz"]}, {"name": "m", "help": "H", "cl": [], "vl": ["l", "zz"]},
+                        {"name": "m", "help": "H" + c + "l" + c + "zz", "cl": [], "vl": []}, {"name": "m", "help": "H", "cl": [["l", "v"]], "vl": ["zz"]},
+                        {"name": "m", "help": "H" + c + "l", "cl": [["zz", "v"]], "vl": []}, {"name": "m", "help": "H" + c + "$l", "cl": [], "vl": ["zz"]},
+                        {"name": "m", "help": "H", "cl": [["a", "x" + c + "y"]], "vl": []}, {"name": "m", "help": "H", "cl": [["a", "x"], ["b", "y"]], "vl": []},
+                        {"name": "m", "help": "H", "cl": [["a", "x" + c], ["b", "y"]], "vl": []}, {"name": "m", "help": "H", "cl": [["a", "x"], ["b", c + "y"]], "vl": []},
+                        {"name": "m", "help": "H", "cl": [["a", "x" + c + "y"], ["b", ""]], "vl": []}, {"name": "m", "help": "H", "cl": [["a", ""], ["b", "x" + c + "y"]], "vl": []}])
     ojobs = []
     for bi, ds in enumerate(batches):
         for di, dsc in enumerate(ds):
